@@ -131,6 +131,7 @@ var infDurations = []time.Duration{
 
 type rsStream struct {
 	ids map[*auparse.AuditMessage]int
+	raw map[int]string // id -> the text given to Push: what is delivered must be that text, not what the caller's buffer holds by then
 	cur *[]rsCb
 }
 
@@ -145,6 +146,9 @@ func (s *rsStream) idOf(m *auparse.AuditMessage) int {
 	}
 	if mm := vidRe.FindStringSubmatch(m.RawData); mm != nil {
 		if id, err := strconv.Atoi(mm[1]); err == nil {
+			if want, ok := s.raw[id]; ok && want != m.RawData {
+				return -1
+			}
 			return id
 		}
 	}
@@ -195,7 +199,8 @@ func runBehaviourF(b *rsBehaviour) (rsReset, []rsCall, rsFeat) {
 		scale = 1
 	}
 	reset := rsReset{K: "reset", Trace: b.Trace, Max: b.Max, Tinf: b.Tinf, Timeout: b.TimeoutUs, Base: b.Base}
-	st := &rsStream{ids: map[*auparse.AuditMessage]int{}}
+	st := &rsStream{ids: map[*auparse.AuditMessage]int{}, raw: map[int]string{}}
+	rawBuf := make([]byte, 0, 256) // one receive buffer for every Push, reused and overwritten as a netlink read loop does
 	var calls []rsCall
 	start := time.Now()
 	r, err := libaudit.NewReassembler(b.Max, timeout, st)
@@ -264,8 +269,13 @@ func runBehaviourF(b *rsBehaviour) (rsReset, []rsCall, rsFeat) {
 				if op.Bad {
 					raw = fmt.Sprintf("audit(1490137971.011:%dx vid=%d", seq, id)
 				}
-				if err := r.Push(auparse.AuditMessageType(op.Type), []byte(raw)); err != nil {
+				st.raw[id] = raw
+				rawBuf = append(rawBuf[:0], raw...)
+				if err := r.Push(auparse.AuditMessageType(op.Type), rawBuf); err != nil {
 					c.Ret = "err"
+				}
+				for j := range rawBuf { // Push copies what it is given: the caller's buffer is the caller's again
+					rawBuf[j] = 'x'
 				}
 			case "pushnil":
 				r.PushMessage(nil)
